@@ -6,6 +6,7 @@ Open Scope N_scope.
 
 Section C10.
   Variable E D : list N -> list N -> list N.   (* the block cipher, abstract *)
+  Hypothesis E_len : forall k b, length (E k b) = 16%nat.   (* ... returning 16-byte blocks *)
   Variable apps : list N.
 
   (* The handlers as sequences of atomic operations, run to completion, ARE the sequential model the
@@ -27,7 +28,7 @@ Section C10.
       let st1 := recover (fst (prunf apps fails 0 fuel st0 (uplink_prog E D f rx n now) [])) in
       let st2 := fst (l_uplink E D apps st1 f rx' n' now') in
       (length (ds_inbox st2) <= S (length (ds_inbox st0)))%nat.
-  Proof. exact (uplink_recorded_at_most_once E D apps). Qed.
+  Proof. intros st0 r0 f H1 H2 H3. exact (uplink_recorded_at_most_once E D apps st0 r0 f H1 H2 H3 E_len). Qed.
 
   (* Downlink clause. Under the same quantification: if a frame has left for the gateway when the handling
      is cut, the stored downlink counter is already one past the counter that frame carries (the counter
@@ -38,7 +39,7 @@ Section C10.
       let res := prunf apps fails 0 fuel st0 (uplink_prog E D f rx n now) [] in
       downs (snd res) <> [] ->
       exists r', ds_row (recover (fst res)) = Some r' /\ d_fdn r' = (d_fdn r0 + 1) mod 65536.
-  Proof. exact (downlink_counter_stored_before_it_is_used E D apps). Qed.
+  Proof. intros st0 r0 f H1 H2 H3. exact (downlink_counter_stored_before_it_is_used E D apps st0 r0 f H1 H2 H3 E_len). Qed.
 
   (* Join clause. Under the same quantification, with the nonce check on: if a join-accept has left or the
      stored session has been replaced, the DevNonce is in the store; and after the restart the same
